@@ -33,7 +33,9 @@ type InlineResult struct {
 // caller that binds g's free variables: a local closure such as `nextKey := func(n int) []byte {...}` is then
 // folded back into the statements it abbreviates).
 func inlinable(g *Function, max int, v Value) bool {
-	if g == nil || g.Blocks == nil || len(g.AnonFuncs) > 0 || g.Recover != nil {
+	// (a function literal of g is an obstacle only while g still makes a closure of it - the MakeClosure test
+	// below; one whose every call was folded into g, or that captures nothing, is not)
+	if g == nil || g.Blocks == nil || g.Recover != nil {
 		return false
 	}
 	if mc, ok := v.(*MakeClosure); ok {
